@@ -24,6 +24,7 @@ claimed = {
  "C14": ("The real order-book code (PairV2.SellWithOrders, calculateBuyForSellWithOrders, updateOrders, removeLimitOrder, ExpireOrders) inside a full State over a concrete book of up to 3 resting orders and a symbolic taker amount: each order is filled at its own price or better for its owner up to one unit, a later order (worse price, or same price and higher id) is touched only after the earlier one is consumed, a partial fill keeps the price (0 <= s*B - b*S < B), no open order is left below the minimum volume, a closing remainder is refunded, and cancelling or expiring in the block of the fill returns exactly the unfilled amount, once.", "§4 C14", "PARTIAL: books of at most 3 concrete orders; paged on-disk index and multi-block interleavings outside; owner-only cancellation (transaction gate) not in this harness."),
  "C15": ("Symbolic RunTx of SellCoin / BuyCoin / SellAllCoin (bancor coin <-> base) and SellSwapPool / BuySwapPool / SellAllSwapPool (token <-> base through one pool), gas coin = base or the traded coin: on acceptance the credit is at least the requested minimum, the debit at most the requested maximum, exactly the requested amount is sold / bought, a sell-all leaves nothing, and the tx.return / tx.sell_amount / tx.commission_amount tags equal the balance changes applied.", "§4 C15", "PARTIAL: two-coin routes only (3..5-coin routes outside the bound); BuySwapPool with concrete amounts to buy."),
  "C16": ("BeginBlock maturity loop from symbolic frozen funds (plain unbond, pending move, later heights, other candidate) with and without byzantine evidence: matured unbonds reach the owner's balance, moves reach the target candidate and never the balance, nothing at other heights is released.", "§4 C16", "Transaction-side period/target gates (Unbond, MoveStake, Lock, LockStake Run) are covered only as listed in evidence."),
+ "C17": ("The real RecalculateStakesV2 / DeleteCandidate / GetNewCandidates over 100..102 concrete candidates plus one with a symbolic stake (every rank and tie): the top 100 by (stake desc, id asc) are kept, the rest removed with every stake frozen in full for the unbond period, a current validator is never removed, the new set is the top online candidates with >= 1000 BIP in stake order; a candidate with 1000 full slots and a symbolic incoming delegation: the newcomer displaces the smallest stake only if not smaller, the loser goes to the waitlist in full; the real updateValidators over 3 symbolic stakes: power = max(1, floor(stake*10^8/total)).", "§4 C17", "PARTIAL: base-coin stakes only; histories of punishments / status switches between updates are outside."),
  "C18": ("BeginBlock byzantine branch over symbolic stakes and unbonding funds: every stake and every fund in the unbond window loses v - floor(95v/100), the rest is frozen for one unbond period, the validator is dropped, total-slashed grows by the sum; other candidates' funds untouched.", "§4 C18", "Absence window / jail harnesses are covered only as listed in evidence."),
  "C19": ("EndBlock accumulation over every present/absent/missing status pattern and symbolic stakes, reward, fees: present validators accrue floor(pot*stake/total), others nothing, accrued + remainder = pot; payout block: paid never exceeds accrued.", "§4 C19", "Locked-stake (x3) bonus branch of PayRewardsV5Fix is outside the registered bound."),
  "C20": ("isApplicationHalted / isUpdateCommissionsBlockV2 / isUpdateNetworkBlockV2 over symbolic validator stakes and every vote pattern against the integer predicate 3*voted > 2*total.", "§4 C20", "big.Float over exact reals in the quick tier; counterexamples are replayed natively with real big.Float."),
@@ -41,7 +42,7 @@ not_applicable = {
  "C29": "state sync: every component on the path (zlib, protobuf, cosmos-sdk snapshot store, IAVL exporter/importer, a goroutine) would be a stub, leaving no repository logic under the solver (DESIGN.md §5)",
 }
 pending = {k: "not claimed yet in this revision: harnesses under construction (see DESIGN.md); no check is registered, so nothing is asserted about it" for k in
-           ["C17"]}
+           []}
 
 def main():
     checks = []
